@@ -7,6 +7,7 @@ import (
 	"crypto/sha256"
 	"errors"
 	"fmt"
+	"math"
 	"math/rand"
 	"os"
 	"sync"
@@ -441,13 +442,30 @@ func newSpannerProber(ctx context.Context, opt ProberOptions, clientOpts ...opti
 func backoff(baseDelay, maxDelay time.Duration, retries int) time.Duration {
 	backoff, max := float64(baseDelay), float64(maxDelay)
 	for backoff < max && retries > 0 {
-		backoff = backoff * 1.5
+		next := backoff * 1.5
+		if next <= backoff {
+			// Not growing (zero or negative base delay).
+			break
+		}
+		backoff = next
 		retries--
 	}
 	if backoff > max {
 		backoff = max
 	}
-	return time.Duration(backoff)
+	// Converting to float64 and back loses precision for huge delays: keep the
+	// result within [baseDelay, maxDelay].
+	d := maxDelay
+	if backoff < float64(math.MaxInt64) {
+		d = time.Duration(backoff)
+	}
+	if d > maxDelay {
+		d = maxDelay
+	}
+	if d < baseDelay {
+		d = baseDelay
+	}
+	return d
 }
 
 // createCloudSpannerInstanceIfMissing creates a one node "Instance" of Cloud Spanner in the specificed project if missing.
